@@ -325,7 +325,7 @@ open QM.Frag QM.Parse in
     themselves are cut differently in one place: the engine emits a field label `x: ` as one atom,
     the layout language keeps the space apart.) -/
 theorem fragment_prints_layout (ts : List T) (h : WFProg ts) (w : Nat) :
-    ∃ ps, renderPieces (printPieces (programDoc ts) w) = renderPieces ps ∧ SeqP ts ps := by
+    ∃ ps, renderPieces (printPieces (programDoc ts) w) = renderPieces ps ∧ SeqP 0 ts ps := by
   unfold printPieces programDoc
   rw [pl_concat]
   simp only [mkFrames, List.cons_append, List.nil_append]
@@ -335,13 +335,15 @@ theorem fragment_prints_layout (ts : List T) (h : WFProg ts) (w : Nat) :
 
 open QM.Frag QM.Parse in
 /-- `print` of the program's document is the text of that layout: stripping trailing white space
-    changes nothing. -/
+    changes nothing (a layout is blocks of lines that end in a non-blank character, with single empty
+    lines — around "tall" steps — between them). -/
 theorem fragment_print_eq (ts : List T) (h : WFProg ts) (w : Nat) :
     print (programDoc ts) w = renderPieces (printPieces (programDoc ts) w) := by
   obtain ⟨ps, hr, hl⟩ := fragment_prints_layout ts h w
+  obtain ⟨bs, hne, rfl, hall⟩ := seqP_blocks hl
   unfold print
   rw [hr]
-  exact strip_renderPieces (seqP_tidy hl true)
+  exact (post_passes_blocks hne hall).1
 
 open QM.Frag QM.Parse in
 /-- the tail of `program` after the (only) sequence, at the end of the text or before its final
@@ -380,13 +382,14 @@ theorem format_idempotent_fragment (ts : List T) (h : WFProg ts) (w : Nat) :
 
 open QM.Frag QM.Parse in
 /-- The model of `format_program` on the fragment returns the layout's text and a final newline:
-    `collapse_blanks` finds no blank line to merge and no trailing blank line to drop (every line of
-    a layout ends in a non-blank character), `expand_literals` finds no placeholder line (no line
+    `collapse_blanks` finds no run of blank lines to merge and no trailing blank line to drop (a layout
+    has single empty lines only, between blocks of lines that end in a non-blank character), `expand_literals` finds no placeholder line (no line
     starts, after its indentation, with NUL) and nothing panics. -/
 theorem fmtFrag_eq (ts : List T) (h : WFProg ts) :
     fmtFrag ts = renderPieces (printPieces (programDoc ts) pageWidth) ++ ['\n'] := by
   obtain ⟨ps, hr, hl⟩ := fragment_prints_layout ts h pageWidth
-  have hp := post_passes (seqP_tidy hl false) (seqP_nulFree hl)
+  obtain ⟨bs, hne, rfl, hall⟩ := seqP_blocks hl
+  have hp := (post_passes_blocks hne hall).2
   unfold fmtFrag
   rw [fragment_print_eq ts h pageWidth, hr, hp.1, hp.2]
 
@@ -421,19 +424,16 @@ the formatted text parses to formats to the same text again (idempotence). For Q
 the theorem below instantiates it for the two MODELS restricted to the fragment, and the `frag`
 differential ties the two models to the two Rust functions on that fragment.
 
-Covered after step 3b: one statement that is a sequence of one or more steps (`,` / newline
-separated); each step — and each field value — a chain of one or more terms; a term is a bare
-identifier, a bare tuple name, an integer or binary literal, a single-line string without holes, or
-an anonymous or named tuple of unnamed / named fields; no trivia. Chains of several terms include
-PIPELINES (`a ~> f`: after a bare identifier the chain may break onto `~> ` continuation lines).
-Two restrictions remain for the theorems: (1) `chainOk` — the last term of a chain of several terms
-is not a tuple with fields (else `chain_doc` takes its flattened-head path, `pretty::flatten`); (2)
-`WFProg` — a program of SEVERAL steps has no pipeline among its steps (a pipeline that breaks is a
-"tall" step, set off by blank lines from its neighbours; pipelines are fine as the only step and
-inside tuples). The two MODELS cover all chains of these terms — tall steps with their blank lines
-and chains ending in a container included — and agree with the implementation there too
-(differential); only the theorems need the restrictions.
-Outside (decided by the implementation oracle only): the chains and programs excluded by (1), (2), bindings and
+Covered after step 3c: one statement that is a sequence of one or more steps (`,` / newline
+separated, "tall" steps set off by blank lines); each step — and each field value — a chain of one
+or more terms; a term is a bare identifier, a bare tuple name, an integer or binary literal, a
+single-line string without holes, or an anonymous or named tuple of unnamed / named fields; no
+trivia. Chains of several terms include PIPELINES (`a ~> f`: after a bare identifier the chain may
+break onto `~> ` continuation lines; a pipeline that breaks is a tall step).
+One restriction remains for the theorems: `chainOk` — the last term of a chain of several terms is
+not a tuple with fields (else `chain_doc` takes its flattened-head path, `pretty::flatten`). The two
+MODELS cover those chains too and agree with the implementation there (differential).
+Outside (decided by the implementation oracle only): the chains excluded by `chainOk`, bindings and
 patterns (`x = …`, `(a) = …` — hence the `(`-initial step rules of 0ca76af / 63d9fac), blocks and
 branches, functions, spawns, selects, strings with holes and `"""` strings, accessors, imports,
 spreads, type aliases, and all comments / blank lines. -/
